@@ -18,10 +18,12 @@ def atomOf (c : Token) : Option Expr :=
 inductive PE
   | atom (c : Token) (x : Expr)
   | bin (o lp rp : Token) (l r : PE)
+  | pre (o : Token) (r : PE)
 
 def PE.toExpr : PE → Expr
   | .atom _ x => x
   | .bin o _ _ l r => .inf o o.lit (some l.toExpr) (some r.toExpr)
+  | .pre o r => .pre o o.lit (some r.toExpr)
 
 /-- well-formed: atoms are atoms, operators are registered binary operators, parentheses are parentheses -/
 def PE.WF : PE → Prop
@@ -29,6 +31,7 @@ def PE.WF : PE → Prop
   | .bin o lp rp l r =>
       lookupLast o.type Gen.infixFns = some .parseInfixExpression ∧ Gen.LOWEST < precOf o.type ∧
       lp.type = .LPAREN ∧ rp.type = .RPAREN ∧ l.WF ∧ r.WF
+  | .pre o r => lookupLast o.type Gen.prefixFns = some .parsePrefixExpression ∧ r.WF
 
 /-- printing with the minimal parentheses for a context of binding power `p`:
     left operands at the operator's own level (left associative), right operands one level tighter -/
@@ -37,11 +40,13 @@ def pr (p : Nat) : PE → List Token
   | .bin o lp rp l r =>
     let body := pr (precOf o.type) l ++ [o] ++ pr (precOf o.type + 1) r
     if precOf o.type < p then [lp] ++ body ++ [rp] else body
+  | .pre o r => o :: pr (Gen.PREFIX + 1) r
 
 theorem pr_ne_nil (p : Nat) (e : PE) : pr p e ≠ [] := by
   cases e with
   | atom => simp [pr]
   | bin o lp rp l r => simp only [pr]; split <;> simp
+  | pre o r => simp [pr]
 
 /-- the token array holds `ts` from index `i` on -/
 def At (s : PS) (i : Nat) (ts : List Token) : Prop := ∀ k (h : k < ts.length), tokAt s (i + k) = ts[k]
@@ -122,6 +127,20 @@ theorem paren_step (f q : Nat) (s : PS) (Q : Option Expr → PS → Prop)
   simp only [h1, if_true, Bool.not_true, Bool.false_eq_true, if_false]
   exact h2
 
+/-- a prefix operator parses its operand at PREFIX binding power and hands the node to the operator loop -/
+theorem prefix_step (f q : Nat) (s : PS) (Q : Option Expr → PS → Prop)
+    (hfn : lookupLast (tokAt s s.pos).type Gen.prefixFns = some .parsePrefixExpression)
+    (h : OK (parseExpression f Gen.PREFIX) { s with pos := s.pos + 1 } (fun r s' =>
+          OK (infixLoop (f+1) q (some (.pre (tokAt s s.pos) (tokAt s s.pos).lit r))) s' Q)) :
+    OK (parseExpression (f+2) q) s Q := by
+  rw [parseExpression_eq]
+  have hl : ((tokAt s s.pos).type == TT.LET) = false := by
+    cases hs : ((tokAt s s.pos).type == TT.LET) with
+    | false => rfl
+    | true => simp only [beq_iff_eq] at hs; rw [hs] at hfn; revert hfn; decide
+  simp only [OK_bind, OK_cur, hl, OK_ite, hfn, runPrefix_eq, OK_nextTok, OK_pure, Bool.false_eq_true, if_false]
+  exact h
+
 /-- the state `s` with the cursor at index `i` -/
 def _root_.Plush.PS.at (s : PS) (i : Nat) : PS := { s with pos := i }
 
@@ -132,10 +151,36 @@ def _root_.Plush.PS.at (s : PS) (i : Nat) : PS := { s with pos := i }
 theorem at_self (s : PS) : s.at s.pos = s := rfl
 theorem rem_at (s : PS) (i : Nat) : rem (s.at i) = s.toks.size - i := rfl
 
-def edge (p : Nat) (e : PE) (nt : Token) : Prop :=
-  match e with
-  | .atom _ _ => nt.type ≠ .ASSIGN
-  | .bin o _ _ _ _ => if precOf o.type < p then True else (precOf nt.type ≤ precOf o.type ∧ nt.type ≠ .ASSIGN)
+def edge (p : Nat) : PE → Token → Prop
+  | .atom _ _, nt => nt.type ≠ .ASSIGN
+  | .bin o _ _ _ _, nt => if precOf o.type < p then True else (precOf nt.type ≤ precOf o.type ∧ nt.type ≠ .ASSIGN)
+  | .pre _ r, nt => precOf nt.type ≤ Gen.PREFIX ∧ edge (Gen.PREFIX + 1) r nt
+
+/-- every registered binary operator binds less tightly than a prefix operator -/
+theorem infix_prec_le {t : TT} (h : lookupLast t Gen.infixFns = some .parseInfixExpression) : precOf t ≤ Gen.PREFIX := by
+  revert h; cases t <;> decide
+
+theorem infix_ne_assign {t : TT} (h : lookupLast t Gen.infixFns = some .parseInfixExpression) : t ≠ .ASSIGN := by
+  intro h0; subst h0; revert h; decide
+
+/-- what the token that follows a sub-expression must satisfy, derived from: it does not bind tighter than `b`
+    (`b` ≤ PREFIX) and is not `=` -/
+theorem edge_of_le (e : PE) : ∀ (p b : Nat) (nt : Token), e.WF → b ≤ Gen.PREFIX → precOf nt.type ≤ b → nt.type ≠ .ASSIGN →
+    (∀ o lp rp l r, e = .bin o lp rp l r → ¬ precOf o.type < p → b ≤ precOf o.type) → edge p e nt := by
+  induction e with
+  | atom c x => intro p b nt _ _ _ hna _; exact hna
+  | bin o lp rp l r _ _ =>
+    intro p b nt _ _ hle hna hb
+    simp only [edge]; split
+    · trivial
+    · rename_i hp; exact ⟨Nat.le_trans hle (hb o lp rp l r rfl hp), hna⟩
+  | pre o r ih =>
+    intro p b nt hwf hbP hle hna _
+    refine ⟨Nat.le_trans hle hbP, ih (Gen.PREFIX + 1) b nt hwf.2 hbP hle hna ?_⟩
+    intro o2 lp2 rp2 l2 r2 he hnp
+    subst he
+    have := infix_prec_le hwf.2.1
+    omega
 
 theorem atomOf_ne_eof {c : Token} {x : Expr} (h : atomOf c = some x) : c.type ≠ .EOF := by
   intro h0; unfold atomOf at h; rw [h0] at h; cases h
@@ -161,6 +206,12 @@ theorem pr_types (e : PE) : ∀ p, e.WF → ∀ t ∈ pr p e, t.type ≠ .EOF :=
       · exact hbody t (by simp only [List.mem_append, List.mem_singleton]; simpa [or_assoc] using h1)
       · subst h1; rw [hrp]; decide
     · exact hbody t ht
+  | pre o r ih =>
+    intro p h t ht
+    simp only [pr, List.mem_cons] at ht
+    rcases ht with h1 | h1
+    · subst h1; exact prefix_ne_eof h.1
+    · exact ih _ h.2 t h1
 
 theorem At_in_range {s : PS} (e : EofOK s) {i : Nat} {ts : List Token} (h : At s i ts)
     (hne : ∀ t ∈ ts, t.type ≠ .EOF) (hnil : ts ≠ []) : i + ts.length ≤ s.toks.size := by
@@ -253,12 +304,7 @@ theorem main (e : PE) : ∀ (q p : Nat) (s : PS) (f : Nat) (Q : Option Expr → 
             simp only [at_pos, tokAt_at]
             rw [show s.pos + (pr (precOf o.type) l).length + 1 + (pr (precOf o.type + 1) r).length
                   = s.pos + ((pr (precOf o.type) l).length + 1 + (pr (precOf o.type + 1) r).length) by omega]
-            cases r with
-            | atom _ _ => exact hnt.2
-            | bin o2 _ _ _ _ =>
-              simp only [edge]; split
-              · trivial
-              · exact ⟨by omega, hnt.2⟩
+            exact edge_of_le r _ (precOf o.type) _ hwr (infix_prec_le hfn) hnt.1 hnt.2 (fun o2 _ _ _ _ _ hnp => by omega)
           · rw [rem_at]; simp only [C] at hf1 ⊢; omega
           · -- continuation after r: the loop stops, the node is built, the outer loop goes on
             intro f2 hf2
@@ -276,14 +322,7 @@ theorem main (e : PE) : ∀ (q p : Nat) (s : PS) (f : Nat) (Q : Option Expr → 
               exact this
       · -- edge for l: the next token is `o`
         rw [hato]
-        cases l with
-        | atom _ _ =>
-          simp only [edge]; intro h0; rw [h0] at hfn; revert hfn; decide
-        | bin o1 _ _ _ _ =>
-          simp only [edge]; split
-          · trivial
-          · refine ⟨by omega, ?_⟩
-            intro h0; rw [h0] at hfn; revert hfn; decide
+        exact edge_of_le l _ (precOf o.type) _ hwl (infix_prec_le hfn) (Nat.le_refl _) (infix_ne_assign hfn) (fun o1 _ _ _ _ _ hnp => by omega)
     intro hqp eo hat hedge hf K
     by_cases hp : precOf o.type < p
     · -- parenthesised:  lp  l o r  rp
@@ -337,6 +376,46 @@ theorem main (e : PE) : ∀ (q p : Nat) (s : PS) (f : Nat) (Q : Option Expr → 
       simp only [pr, if_neg hp] at hat K hedge
       simp only [edge, if_neg hp] at hedge
       exact body q0 s0 f0 Q0 (by omega) eo hat hedge hf K
+  | pre o r ih =>
+    intro q p s f Q hwf hqp eo hat hedge hf K
+    obtain ⟨hfn, hwr⟩ := hwf
+    simp only [pr] at hat K
+    simp only [pr, edge] at hedge
+    have Lr := pr_len_pos (Gen.PREFIX + 1) r
+    have hrange := At_in_range eo hat (by
+        intro t ht
+        simp only [List.mem_cons] at ht
+        rcases ht with h1 | h1
+        · subst h1; exact prefix_ne_eof hfn
+        · exact pr_types r _ hwr t h1) (by simp)
+    simp only [List.length_cons] at hrange K hedge
+    obtain ⟨f', rfl⟩ : ∃ f', f = f' + 2 := ⟨f - 2, by simp only [C] at hf; omega⟩
+    have hat0 : tokAt s s.pos = o := by
+      have := hat 0 (by simp)
+      simpa only [Nat.add_zero, List.getElem_cons_zero] using this
+    have hatr : At s (s.pos + 1) (pr (Gen.PREFIX + 1) r) := by
+      have := At_append_right (a := [o]) (c := pr (Gen.PREFIX + 1) r) (by simpa using hat)
+      simpa using this
+    apply prefix_step
+    · rw [hat0]; exact hfn
+    · rw [hat0]
+      show OK (parseExpression f' Gen.PREFIX) (s.at (s.pos + 1)) _
+      apply ih Gen.PREFIX (Gen.PREFIX + 1) (s.at (s.pos + 1)) f' _ hwr (by omega) (show EofOK (s.at _) from eo) hatr
+      · simp only [at_pos, tokAt_at]
+        rw [show s.pos + 1 + (pr (Gen.PREFIX + 1) r).length = s.pos + ((pr (Gen.PREFIX + 1) r).length + 1) by omega]
+        exact hedge.2
+      · rw [rem_at]; simp only [rem, C] at hf ⊢; omega
+      · intro f2 hf2
+        simp only [at_pos, at_at] at hf2 ⊢
+        rw [rem_at] at hf2
+        obtain ⟨h2, rfl⟩ : ∃ h2, f2 = h2 + 1 := ⟨f2 - 1, by simp only [C] at hf2; omega⟩
+        apply loop_stops
+        · simp only [tokAt_at, at_pos]
+          rw [show s.pos + 1 + (pr (Gen.PREFIX + 1) r).length - 1 + 1 = s.pos + ((pr (Gen.PREFIX + 1) r).length + 1) by omega]
+          exact hedge.1
+        · have := K (f' + 1) (by rw [rem_at]; simp only [rem, C] at hf ⊢; omega)
+          rw [show s.pos + ((pr (Gen.PREFIX + 1) r).length + 1) - 1 = s.pos + 1 + (pr (Gen.PREFIX + 1) r).length - 1 by omega] at this
+          exact this
 
 /-- THEOREM C (Pratt round trip on the parser model). Any expression tree over atoms and binary operators,
     printed with the minimal parentheses that precedence and LEFT associativity require and followed by any
@@ -350,13 +429,7 @@ theorem parse_print (e : PE) (s : PS) (f : Nat) (hwf : e.WF) (eo : EofOK s)
     parseExpression f Gen.LOWEST s = .ok (some e.toExpr, s.at (s.pos + (pr (Gen.LOWEST + 1) e).length - 1)) := by
   have := main e Gen.LOWEST (Gen.LOWEST + 1) s f
     (fun r s' => r = some e.toExpr ∧ s' = s.at (s.pos + (pr (Gen.LOWEST + 1) e).length - 1)) hwf (by omega) eo hat
-    (by
-      cases e with
-      | atom _ _ => exact hna
-      | bin o _ _ _ _ =>
-        simp only [edge]; split
-        · trivial
-        · exact ⟨by rw [hnext]; have := hwf.2.1; omega, hna⟩) hf
+    (edge_of_le e _ Gen.LOWEST _ hwf (by decide) (by rw [hnext]; exact Nat.le_refl _) hna (fun o _ _ _ _ _ hnp => by omega)) hf
     (by
       intro f1 hf1
       rw [rem_at] at hf1
